@@ -16,7 +16,7 @@ import (
 // character classes
 var vfJidAccepted = []string{"a", "b", "z", "A", "Q", "0", "9", ".", "-", "_", "+", "=", "~", "!", "é", "ß", "中", "Ж", "\U0001F600", "xn--", "example", "com", "node"}
 var vfJidSpaces = []string{" ", "\t", "\n", "\r", " ", " ", "　", "\u0085", " "}
-var vfJidForbiddenLocal = []string{"'", "\"", ":", "<", ">"} // '@' and '/' are structural
+var vfJidForbiddenLocal = []string{"'", "\"", ":", "<", ">"}         // '@' and '/' are structural
 var vfJidSilent = []string{"&", "\\", "%", "#", "\x00", "\x7f", "​"} // neither statement nor code lists speak: no accept/reject assertion
 
 type vfJidVerdict int
